@@ -377,7 +377,8 @@ def run_case(case, env):
                     _bump(probes, "hard_error_reported_nonzero")
                 if mode == "error" and res.exit_status == 0:
                     _bump(probes, "hard_error_absorbed_exit0")
-                    stats.setdefault("notes", []).append("absorbed %s on %s" % (plan[2], call.name + ":" + str((call.targets() or call.paths or [call.fdpath])[0]).split("/")[-1]))
+                    what = plan[2] if not isinstance(plan, list) else "+".join(str(f[1]) for f in plan)   # a plan is one fault or a list of them
+                    stats.setdefault("notes", []).append("absorbed %s on %s" % (what, call.name + ":" + str((call.targets() or call.paths or [call.fdpath])[0]).split("/")[-1]))
                 do_recover = (mode in ("enumerate", "error", "single")) and pi != adopt_i and (rec_set is None or pi in rec_set)
                 if do_recover and not vs:
                     # recovery within one step once faults stop
